@@ -63,6 +63,7 @@ import GocoinV.Proofs.C06Path
 import GocoinV.Proofs.C06Deliver
 import GocoinV.Proofs.C06Idx
 import GocoinV.Proofs.C06Order
+import GocoinV.Proofs.C06TxOrder
 import GocoinV.Proofs.C06Example
 namespace GocoinV.Props.C06
 open GocoinV.UtxoOps GocoinV.ChainTree
@@ -413,6 +414,64 @@ theorem commitTxs_checked_iff (u : DB) (h rwd : Nat) (txs : List Tx) (ch : Chang
     commitTxs u h rwd false txs = .ok ch ↔ (commitTxs u h rwd true txs = .ok ch ∧ scriptsPass txs = true) :=
   commitTxs_checked_iff' u h rwd txs ch
 
+/-- **The order of a block's transactions is part of its validity.** `commitTxs` refuses — with the scripts checked or
+skipped (`tr`), on the tip and inside a reorganisation alike — every block in which a non-coinbase transaction `tx` has an
+input whose source is neither an unspent output of the map nor an output of a transaction listed EARLIER in the block
+(`pre`); what the block lists behind `tx` (`post`) does not matter. In the code: `blUnsp[tx.Hash.Hash] = …` is the last
+statement of the loop body, so the map of the block's own outputs knows a transaction only once its inputs are done;
+registering all transactions before the loop would let `tx` spend an output of `post`. -/
+theorem commitTxs_refuses_spend_of_later_tx (u : DB) (h rwd : Nat) (tr : Bool) (pre : List Tx) (tx : Tx) (post : List Tx)
+    (i : TxIn) (hi : i ∈ tx.ins) (hne : pre ≠ [])
+    (hg : unspentGet u i.txid i.vout = none) (hpre : ∀ p ∈ pre, p.txid ≠ i.txid) :
+    ∃ e, commitTxs u h rwd tr (pre ++ tx :: post) = .error e :=
+  commitTxs_forward_spend u h rwd tr pre tx post i hi hne hg hpre
+
+/-- … and therefore the replay of a branch (the meaning of "valid" in every theorem here) has no value as soon as one of
+its blocks lists a transaction before the transaction of the same block that it spends from (or spends itself): with
+BIP30 freshness the block's own txids are not in the map below it, so the source can only be an earlier transaction of
+the block — and there is none with that txid. -/
+theorem misordered_block_never_replays (e : PE) (rest : List PE) (pre post : List Tx) (tx : Tx) (i : TxIn)
+    (htx : e.txs = pre ++ tx :: post) (hne : pre ≠ []) (hi : i ∈ tx.ins)
+    (hlater : i.txid ∈ (tx :: post).map (·.txid)) (hpre : ∀ p ∈ pre, p.txid ≠ i.txid)
+    (hf : Fresh (e :: rest)) : replay (e :: rest) = none := by
+  unfold replay
+  cases hu : replay rest with
+  | none => rfl
+  | some u =>
+    have hget : u.get i.txid = none := by
+      apply hf.1 u hu
+      rw [htx, List.map_append]
+      exact List.mem_append_right _ hlater
+    have hg : unspentGet u i.txid i.vout = none := by simp [unspentGet, hget]
+    obtain ⟨er, he⟩ := commitTxs_forward_spend u (rest.length + 1) (reward (rest.length + 1)) true pre tx post i hi hne hg hpre
+    simp only [htx, he]
+
+/-- **No block of the active branch is misordered**: after any sequence of deliveries drawn from a block tree, no block
+of the active branch (the one whose replay IS the unspent map) contains a non-coinbase transaction with an input that
+names a transaction listed at the same place or later in that block and no transaction listed earlier. -/
+theorem active_branch_blocks_are_ordered (r bits : Nat) (U ds : List Block) (hbits : bits % 0x1000000 ≠ 0) (hU : BlockTree r U)
+    (hds : ∀ b ∈ ds, b ∈ U) :
+    ∃ path, PathOK (ds.foldl (fun c b => (deliver c b).1) (ChainTree.init r bits)) 0 path ∧
+      ∀ e ∈ path, ∀ (pre post : List Tx) (tx : Tx) (i : TxIn), e.txs = pre ++ tx :: post → pre ≠ [] → i ∈ tx.ins →
+        (∀ p ∈ pre, p.txid ≠ i.txid) → i.txid ∉ (tx :: post).map (·.txid) := by
+  have aux : ∀ (path : List PE) (u : DB), replay path = some u → Fresh path →
+      ∀ e ∈ path, ∀ (pre post : List Tx) (tx : Tx) (i : TxIn), e.txs = pre ++ tx :: post → pre ≠ [] → i ∈ tx.ins →
+        (∀ p ∈ pre, p.txid ≠ i.txid) → i.txid ∉ (tx :: post).map (·.txid) := by
+    intro path
+    induction path with
+    | nil => intro u _ _ e he; cases he
+    | cons a rest ih =>
+      intro u hu hfr e he pre post tx i htx hne hi hpre hlater
+      rcases List.mem_cons.mp he with rfl | hin
+      · rw [misordered_block_never_replays e rest pre post tx i htx hne hi hlater hpre hfr] at hu
+        cases hu
+      · cases hr : replay rest with
+        | none => simp only [replay, hr] at hu; cases hu
+        | some u' => exact ih u' hr hfr.2 e hin pre post tx i htx hne hi hpre hlater
+  obtain ⟨path, hp, -⟩ := (reorg_inv r bits U ds hbits hU hds).path
+  obtain ⟨u, hu, -⟩ := hp.utxo
+  exact ⟨path, hp, aux path u hu hp.fresh⟩
+
 /-- **First seen wins ties when a block is delivered**: a side block whose cumulative work (its parent's work plus its own
 difficulty, exact) is NOT strictly greater than the tip's leaves the tip where it is — so among equal-work branches the
 one that was there first stays, until a delivery with strictly more work arrives. (The only other way the tip moves is
@@ -738,6 +797,18 @@ example : ∃ (c : Chain) (nxt r : Node), TreeWF exU c ∧ getNode c 3 = some nx
 
 -- non-vacuity of the hypotheses of the replay-invariant theorems
 
+
+-- commitTxs_refuses_spend_of_later_tx / misordered_block_never_replays: a block [coinbase, child, parent] in which the
+-- child (txid 9) spends output 0 of the parent (txid 10) listed behind it; the parent spends an unspent output of the map.
+-- The same three transactions with the parent first are accepted.
+def oxChild : Tx := { txid := 9, ins := [{ txid := 10, vout := 0 }], outs := [⟨30, "51"⟩], scriptsOk := true }
+def oxParent : Tx := { txid := 10, ins := [{ txid := 7, vout := 0 }], outs := [⟨40, "51"⟩], scriptsOk := true }
+def oxDB : DB := [{ txid := 7, height := 1, coinbase := false, outs := [some ⟨50, "51"⟩] }]
+example : ∃ (u : DB) (pre post : List Tx) (tx : Tx) (i : TxIn), i ∈ tx.ins ∧ pre ≠ [] ∧
+    unspentGet u i.txid i.vout = none ∧ (∀ p ∈ pre, p.txid ≠ i.txid) ∧ i.txid ∈ (tx :: post).map (·.txid) ∧
+    (commitTxs u 2 (reward 2) false (pre ++ tx :: post)).toOption = none ∧
+    (commitTxs u 2 (reward 2) false (pre ++ post ++ [tx])).toOption.isSome = true :=
+  ⟨oxDB, [cbTx 8], [oxParent], oxChild, ⟨10, 0⟩, by decide, by decide, by decide, by decide, by decide, by decide, by decide⟩
 
 -- commitTxs_valid / undo_commitTxs: a block that partially spends a two-output record
 example : ∃ (u : DB) (txs : List Tx) (ch : Changes), commitTxs u 2 (reward 2) false txs = .ok ch ∧
